@@ -5,7 +5,7 @@ from ..capability import Capability
 
 from ..basetypes import ErrorType, PropertyIdentifier
 from ..primitivedata import Atomic, Null, Unsigned
-from ..constructeddata import Any, Array, ArrayOf, Choice, List
+from ..constructeddata import Any, AnyAtomic, Array, ArrayOf, Choice, List
 
 from ..apdu import SimpleAckPDU, ReadPropertyACK, ReadPropertyMultipleACK, \
     ReadAccessResult, ReadAccessResultElement, ReadAccessResultElementChoice
@@ -113,8 +113,13 @@ class ReadWritePropertyServices(Capability):
 
             # get the datatype, special case for null unless it is one of the choices
             datatype = obj.get_datatype(apdu.propertyIdentifier)
-            if apdu.propertyValue.is_application_class_null() and not issubclass(datatype, Choice):
-                datatype = Null
+            if apdu.propertyValue.is_application_class_null():
+                # an element, or a whole array or list with one element, looks the same
+                target = datatype
+                if issubclass(datatype, (Array, List)) and (apdu.propertyArrayIndex != 0):
+                    target = datatype.subtype
+                if not issubclass(target, (Choice, AnyAtomic)):
+                    datatype = Null
             if _debug: ReadWritePropertyServices._debug("    - datatype: %r", datatype)
 
             # special case for array parts, others are managed by cast_out
